@@ -27,15 +27,15 @@ func (c15) Budget(tier string) int {
 	if tier == "thorough" {
 		return 12000
 	}
-	return 320
+	return 640
 }
 
 func (c15) Describe() engine.Info {
 	return engine.Info{
-		Rule: "scenario = random scene within the statement's restrictions (LCD and background on, 8x8 objects, at most 10 per line, OAM ordered by X, WX 7..166): random or structured tile data, both tile maps, both addressing modes, SCX/SCY, window on/off at any position, 0..40 objects anywhere incl. partly outside each edge, flips, both object palettes, background priority, arbitrary BGP/OBP0/OBP1; LCD switched on at a random cycle of the frame loop; 2..4 frames; CPU parked or running a program. All 23,040 pixels of the last frame handed to the simulated display are compared. " +
+		Rule: "class rescene: after the first scene has been judged it is changed (objects hidden with Y=0 or Y>=160, attributes, scroll, window, palettes, LCDC) during VBlank or with the LCD switched off at an arbitrary cycle, and the frames after the change are judged against the new scene alone; scenario = random scene within the statement's restrictions (LCD and background on, 8x8 objects, at most 10 per line, OAM ordered by X, WX 7..166): random or structured tile data, both tile maps, both addressing modes, SCX/SCY, window on/off at any position, 0..40 objects anywhere incl. partly outside each edge, flips, both object palettes, background priority, arbitrary BGP/OBP0/OBP1; LCD switched on at a random cycle of the frame loop; 2..4 frames; CPU parked or running a program. All 23,040 pixels of the last frame handed to the simulated display are compared. " +
 			"Oracle: reference compositor (low bit-plane = first byte; object priority by X then OAM index); the four shades must be four distinct greys of strictly decreasing brightness, consistent over the frame (the RGB values themselves are not prescribed). Signature = (features present: window, objects clipped at top/bottom/left/right, object palette 1, background-priority objects, signed addressing, flips).",
 		Assumptions:    []string{"the RGB values of the four shades are not prescribed; they are learnt per frame and must be consistent, grey and strictly darker with the shade number", "mid-frame register changes are outside the statement (the scene is constant)"},
-		RequiredProbes: []string{"frames_compared", "object_clipped_top", "object_clipped_left", "object_clipped_right", "object_clipped_bottom", "window_visible", "bg_priority_object", "obp1_object"},
+		RequiredProbes: []string{"scene_changed", "objects_hidden_by_y0", "frames_compared", "object_clipped_top", "object_clipped_left", "object_clipped_right", "object_clipped_bottom", "window_visible", "bg_priority_object", "obp1_object"},
 		RealComponents: realComponents, StubComponents: stubComponents,
 	}
 }
@@ -46,8 +46,52 @@ func (c15) Generate(r *engine.Rand, index int, tier string) *engine.Scenario {
 	sc.SetP("on_at", int64(r.Intn(17556)))
 	sc.SetP("frames", int64(r.Range(2, 4)))
 	sc.SetP("cpu", int64(r.Intn(2)))
+	if index%3 == 2 {
+		sc.Class = "rescene"
+		sc.SetP("rescene", int64(r.Range(1, 2)))
+		sc.SetP("off_at", int64(r.Range(1, 17556)))
+		sc.SetP("off_for", int64(r.Range(1, 3000)))
+	}
 	sc.Cycles = 5 * 17556
 	return sc
+}
+
+// c15Rescene derives a second scene from a first: some objects hidden (Y=0 or Y>=160), flips,
+// palettes and priorities changed, registers changed. Positions of visible objects stay, so
+// the order by X and the ten-per-line limit still hold.
+func c15Rescene(a *dmgref.Scene, seed uint64) *dmgref.Scene {
+	r := engine.NewRand(seed)
+	b := *a
+	for i := 0; i < 40; i++ {
+		if b.OAM[4*i] == 0 {
+			continue
+		}
+		switch r.Intn(6) {
+		case 0, 1:
+			b.OAM[4*i] = 0
+		case 2:
+			b.OAM[4*i] = uint8(r.Range(160, 255))
+		case 3:
+			b.OAM[4*i+3] = r.Byte() & 0xf0
+		}
+		// objects that touched the last visible lines are the ones a per-line scan may remember
+		if y := a.OAM[4*i]; y >= 152 && y < 160 && r.Chance(2, 3) {
+			b.OAM[4*i] = 0
+		}
+	}
+	if r.Bool() {
+		b.SCX, b.SCY = r.Byte(), r.Byte()
+	}
+	if r.Bool() {
+		b.WX, b.WY = uint8(r.Range(7, 166)), uint8(r.Intn(160))
+	}
+	if r.Bool() {
+		b.BGP, b.OBP0, b.OBP1 = r.Byte(), r.Byte(), r.Byte()
+	}
+	if r.Bool() {
+		b.LCDC = 0x81 | r.Byte()&0x7a
+	}
+	return &b
 }
 
 // c15Scene builds the scene of a scenario.
@@ -199,50 +243,114 @@ func (c15) Execute(sc *engine.Scenario) *engine.Result {
 		res.Harness = fmt.Sprintf("display got %d frames of %d bytes", shown, len(last))
 		return res
 	}
-	want := s.Compose()
-	res.Probe("frames_compared")
-	{
-		dg := engine.NewDigest()
-		dg.Bytes(last)
-		res.Digest = uint64(dg)
-	}
-	var shadeRGB [4][4]uint8
-	var have [4]bool
-	for y := 0; y < 144 && res.Violation == nil; y++ {
-		for x := 0; x < 160; x++ {
-			p := last[(y*160+x)*4 : (y*160+x)*4+4]
-			sh := want[y][x]
-			if !have[sh] {
-				have[sh] = true
-				copy(shadeRGB[sh][:], p)
-				continue
-			}
-			if p[0] != shadeRGB[sh][0] || p[1] != shadeRGB[sh][1] || p[2] != shadeRGB[sh][2] || p[3] != shadeRGB[sh][3] {
-				// which shade did the emulator draw?
-				drew := -1
-				for k := 0; k < 4; k++ {
-					if have[k] && p[0] == shadeRGB[k][0] && p[1] == shadeRGB[k][1] && p[2] == shadeRGB[k][2] {
-						drew = k
-					}
+	compare := func(s *dmgref.Scene, tag string) {
+		want := s.Compose()
+		res.Probe("frames_compared")
+		{
+			dg := engine.NewDigest()
+			dg.Bytes(last)
+			res.Digest = uint64(dg)
+		}
+		var shadeRGB [4][4]uint8
+		var have [4]bool
+		for y := 0; y < 144 && res.Violation == nil; y++ {
+			for x := 0; x < 160; x++ {
+				p := last[(y*160+x)*4 : (y*160+x)*4+4]
+				sh := want[y][x]
+				if !have[sh] {
+					have[sh] = true
+					copy(shadeRGB[sh][:], p)
+					continue
 				}
-				res.Fail("C15/"+c15Classify(s, x, y), uint64(y*160+x), "pixel (%d,%d) is %v = shade %d, the DMG composition gives shade %d (%v); LCDC=%02x SCX=%d SCY=%d WX=%d WY=%d BGP=%02x OBP0=%02x OBP1=%02x", x, y, p, drew, sh, shadeRGB[sh], s.LCDC, s.SCX, s.SCY, s.WX, s.WY, s.BGP, s.OBP0, s.OBP1)
-				break
+				if p[0] != shadeRGB[sh][0] || p[1] != shadeRGB[sh][1] || p[2] != shadeRGB[sh][2] || p[3] != shadeRGB[sh][3] {
+					// which shade did the emulator draw?
+					drew := -1
+					for k := 0; k < 4; k++ {
+						if have[k] && p[0] == shadeRGB[k][0] && p[1] == shadeRGB[k][1] && p[2] == shadeRGB[k][2] {
+							drew = k
+						}
+					}
+					res.Fail("C15/"+tag+c15Classify(s, x, y), uint64(y*160+x), "pixel (%d,%d) is %v = shade %d, the DMG composition gives shade %d (%v); LCDC=%02x SCX=%d SCY=%d WX=%d WY=%d BGP=%02x OBP0=%02x OBP1=%02x", x, y, p, drew, sh, shadeRGB[sh], s.LCDC, s.SCX, s.SCY, s.WX, s.WY, s.BGP, s.OBP0, s.OBP1)
+					break
+				}
+			}
+		}
+		if res.Violation == nil {
+			prev := 256
+			for k := 0; k < 4; k++ {
+				if !have[k] {
+					continue
+				}
+				c := shadeRGB[k]
+				if c[0] != c[1] || c[1] != c[2] || c[3] != 0xff || int(c[0]) >= prev {
+					res.Fail("C15/"+tag+"shades-not-grey-or-not-ordered", uint64(k), "shade %d is drawn as %v: the four shades must be distinct greys, darker with the shade number", k, c)
+					break
+				}
+				prev = int(c[0])
 			}
 		}
 	}
-	if res.Violation == nil {
-		prev := 256
-		for k := 0; k < 4; k++ {
-			if !have[k] {
-				continue
-			}
-			c := shadeRGB[k]
-			if c[0] != c[1] || c[1] != c[2] || c[3] != 0xff || int(c[0]) >= prev {
-				res.Fail("C15/shades-not-grey-or-not-ordered", uint64(k), "shade %d is drawn as %v: the four shades must be distinct greys, darker with the shade number", k, c)
-				break
-			}
-			prev = int(c[0])
+	compare(s, "")
+	if mode := sc.P("rescene", 0); mode != 0 && res.Violation == nil {
+		// the scene changes (objects hidden, attributes, scroll, palettes, window) in VBlank or
+		// with the LCD switched off at an arbitrary point of a frame; the frames after the
+		// change are the composition of the new scene only
+		b := c15Rescene(s, uint64(sc.P("sseed", 1))^0xb5ce)
+		apply := func() {
+			m.OAM.VerifPoke(b.OAM)
+			m.Write(0xff42, b.SCY)
+			m.Write(0xff43, b.SCX)
+			m.Write(0xff4a, b.WY)
+			m.Write(0xff4b, b.WX)
+			m.Write(0xff47, b.BGP)
+			m.Write(0xff48, b.OBP0)
+			m.Write(0xff49, b.OBP1)
 		}
+		done := false
+		offAt := m.N + uint64(sc.P("off_at", 0))
+		m.OnCycle = func() {
+			if done {
+				return
+			}
+			switch mode {
+			case 1:
+				if m.Read(0xff41)&3 == 1 && m.Read(0xff44) >= 145 {
+					apply()
+					m.Write(0xff40, b.LCDC)
+					done = true
+					res.Fault("scene_change_in_vblank")
+				}
+			default:
+				if m.N == offAt {
+					m.Write(0xff40, s.LCDC&0x7f)
+					res.Fault("lcd_switch_off")
+				}
+				if m.N == offAt+uint64(sc.P("off_for", 1)) {
+					apply()
+					m.Write(0xff40, b.LCDC)
+					done = true
+					res.Fault("scene_change_with_lcd_off")
+				}
+			}
+		}
+		m.RunFrames(2 + frames)
+		res.Cycles = m.N
+		if !done {
+			res.Harness = "scene change never happened"
+			return res
+		}
+		res.Probe("scene_changed")
+		hidden := 0
+		for i := 0; i < 40; i++ {
+			if b.OAM[4*i] == 0 && s.OAM[4*i] != 0 {
+				hidden++
+			}
+		}
+		if hidden > 0 {
+			res.Probe("objects_hidden_by_y0")
+		}
+		compare(b, "after-scene-change/")
+		s = b
 	}
 	// coverage
 	sig := ""
